@@ -739,6 +739,8 @@ class Interp:
                 return obj.attrs[name]
             if name == 'args':
                 return obj.args
+            if name == '__class__':
+                return obj.cls
             a = _static_lookup(obj.cls, name)
             if a is not _MISSING:
                 return self.descr_get(a, obj, obj.cls, node)
